@@ -1240,7 +1240,7 @@ class Stack(list):
         locktime = decode_num(self[-1])
         if locktime < 0:
             return False
-        if locktime < 50000000 < tx_locktime or locktime > 50000000 > tx_locktime:
+        if locktime < 500000000 <= tx_locktime or locktime >= 500000000 > tx_locktime:
             return False
         if tx_locktime < locktime:
             return False
